@@ -567,7 +567,10 @@ func (em *emitter) emitAssignmentNode(node *ast.Assignment) {
 		case *ast.Index:
 			exprType := em.typ(v.Expr)
 			var expr int8
-			if exprType.Kind() == reflect.Array {
+			if ptr, ok := em.pointerOfArray(v.Expr); ok {
+				// (*p)[i] = v and p[i] = v assign to the array pointed by p.
+				expr = operand(ptr, em.typ(ptr))
+			} else if exprType.Kind() == reflect.Array {
 				expr = em.emitExpr(v.Expr, exprType)
 			} else {
 				expr = operand(v.Expr, exprType)
